@@ -24,6 +24,7 @@ from ..mplib import Q
 from ..verdict import Result
 
 LEVEL = "exploration"
+REPS = {"quick": 1, "thorough": 12}
 RULE = ("configuration lattice enumerated exhaustively: 20 source systems x 40 to_* targets (geometric + momentum "
         "spellings) x {mp object, float64 object, NumPy, Awkward} x {generic, momentum}; to_Vector2D/3D/4D, to_2D/3D/4D, "
         "like for every dimension pair and every keyword spelling (z/pz/theta/eta, t/e/E/energy, tau/m/M/mass) with scalar "
